@@ -288,6 +288,10 @@ def gen_cs(s: Src) -> bytes:
     return bytes([len(body)]) + body
 
 
+def _cs(body: bytes) -> bytes:
+    return bytes([len(body)]) + body
+
+
 def gen_blob(s: Src) -> bytes:
     if s.below(2):
         return b"".join(gen_piece(s) for _ in range(s.below(6)))
@@ -304,20 +308,23 @@ def gen_fields(s: Src, rtype: int, npool: int, comp: bool):
 
     lay = R.LAYOUT.get(rtype)
     if lay is not None:
+        # two records in three look like real zone data (small numbers, ASCII text: no octet >= 0xC0 outside pointers),
+        # the third has pointer look-alikes / arbitrary octets in its non-name fields
+        real = s.below(3) < 2
         out = []
         for f in lay:
             if f == "n":
                 out.append(nm())
             elif f == "cs":
-                out.append(["b", gen_cs(s)])
+                out.append(["b", _cs(_text(s, _LDH + " =;:.!^$\\", 0, 12).encode()) if real else gen_cs(s)])
             elif f == "rest":
-                out.append(["b", gen_blob(s)])
+                out.append(["b", bytes(x & 0x7F for x in s.take(s.below(12))) if real else gen_blob(s)])
             elif f == 1:
-                out.append(["b", bytes([s.u8()])])
+                out.append(["b", bytes([s.below(16) if real else s.u8()])])
             elif f == 2:
-                out.append(["b", _be(gen_u16(s), 2)])
+                out.append(["b", _be(s.pick(_SMALL16) if real else gen_u16(s), 2)])
             else:
-                out.append(["b", _be(gen_u32(s), 4)])
+                out.append(["b", _be(s.pick(_SMALL32) if real else gen_u32(s), 4)])
         return out
     if rtype == R.A:
         return [["b", s.pick([b"\xc0\x0c\xc0\x0c", b"\xc0\xa8\x00\x01", b"\x7f\x00\x00\x01"]) if s.below(3) == 0 else s.take(4)]]
